@@ -413,7 +413,7 @@ pub const LOOKALIKE_WORDS: &[&str] = &[
     "[a]", "[", "]", "{a: 1}", "{", "}", "a,b", "a, b", ",", "&a", "*a", "&", "*", "!a", "!!str a", "!", "|", ">", "|-", ">+", "| a",
     "'a'", "'", "''", "\"a\"", "\"", "\"\"", "a'b", "a\"b", "%a", "%YAML 1.2", "@a", "`a`", "a\\b", "\\", "\\n", "1:30", "1:30:15",
     "12:30", "2001-12-14", "2001-12-14t21:59:43.10-05:00", "=", "~a", "null ", " null", "nulll", "1 ", " 1", "0.1.2", "1,000", "é",
-    "😀", "\u{feff}a", "a\u{feff}", "\u{85}", "a\u{2028}b",
+    "😀", "\u{feff}a", "a\u{feff}", "\u{85}", "a\u{2028}b", "a -", "a - b", "a ?", "a :",
 ];
 
 fn opt_space(tier: Tier) -> Vec<SerOpts> {
